@@ -210,6 +210,8 @@ CheckEliminate(e) ==
          "a node with an empty path region is left after infeasible_elimination on a total tree", "empty-left")
     /\ V("C06", e, ~total \/ e.faulty \/ \A i \in Occ(h) \ {h.root} : ~h.nodes[i].leaf => NumChildren(h.nodes[i]) # 1,
          "a decision below the root is left with a single branch after infeasible_elimination on a total tree", "single-branch")
+    /\ Require(IsNone(e.perf) \/ "lps" \notin DOMAIN e.perf \/ (e.perf.lps = Len(e.lp) /\ e.perf.lpf + e.perf.lpi + e.perf.lpe <= e.perf.lps /\ e.perf.nodes_checked + e.perf.skipped >= Cardinality(Occ(h))),
+               Drift(e, "PerformanceCounter disagrees with the LP tap (lps_solved) or with the number of visited nodes"))
     /\ V("C06", e, ~total \/ e.faulty \/ IsNone(e.second) \/
             (e.second.res = "ok" /\ ObsTree(ToT(e.second.post)) = ObsTree(h)),
          "running infeasible_elimination again changed the tree", "idem")
@@ -226,6 +228,13 @@ CheckFaulty(e) ==
     /\ V("C11", e, ~Sane(h) \/ CacheSound(h), "an unsound witness or infeasible verdict was cached under LP faults", "cache/" \o kd)
     /\ V("C11", e, IsNone(e.nofault) \/ e.nofault.res # "ok" \/ ~Sane(h) \/ Occ(ToT(e.nofault.post)) \subseteq Occ(h),
          "a node kept by the fault-free run was removed under LP faults (more pruning instead of less)", "more-pruning/" \o kd)
+
+\* replace_node(i, a): inputs routed through i get a(x), all others are unchanged; the node is a terminal afterwards
+CheckReplace(e) ==
+    LET f == ToT(e.pre)  h == ToT(e.post)  i == e.perf.target  a == e.aff
+        expected == {p \in P0(f) : ~Subset(p.cons, RouteRegion(f, i), f.dim)} \cup {[cons |-> RouteRegion(f, i), out |-> Out(a.m, a.b, a.q)]}
+    IN /\ V("C04", e, Sane(h) /\ e.perf.new \in Occ(h) /\ h.nodes[e.perf.new].leaf, "replace_node did not leave a terminal at the returned index", "law")
+       /\ V("C04", e, ~Sane(h) \/ PwlEq(P0(h), expected, f.dim), "replace_node changed the function outside the replaced node's region (or not inside it)", "function")
 
 \* every step of a history: well-formedness and cache soundness are preserved (C04, C05), LP answers are right (C10)
 CheckHistoryStep(e) ==
@@ -252,6 +261,7 @@ CheckEvent(e) ==
               [] e.op = "apply_func" -> CheckApplyFunc(e)
               [] e.op = "reduce" -> CheckReduce(e)
               [] e.op = "eliminate" -> CheckEliminate(e)
+              [] e.op = "replace_node" -> CheckReplace(e)
          /\ (e.mode # "history" \/ CheckHistoryStep(e))
          /\ (~("faulty" \in DOMAIN e /\ e.faulty) \/ CheckFaulty(e))
          /\ DriftCheck(e)
